@@ -229,7 +229,7 @@ func (w *World) materialise(it Intent, h int64, idx int, sc *blockScratch) *TxPl
 	if !okTo {
 		to = Addr{}
 	}
-	if it.Kind == "transfer" && m.IsContract(to) {
+	if it.Kind == "transfer" && (m.IsContract(to) || m.Deployed[to]) {
 		isEVM = true
 	}
 	gas := gov.MinTrxGas
